@@ -162,13 +162,57 @@ func rulesExtract(p *Prog, r *Report, eng *Engine) {
 					if o := callee.Origin(); o != nil && o.Name() == "flatten" || callee.Name() == "flatten" {
 						flatCall = c
 					}
+					// under any name: the in-module call that turns the expansion ([][]*node) into a flat []*node
+					if flatCall == nil && len(c.Call.Args) == 1 && isNodeSlice(c.Type(), nodeType(p), 1) && isNodeSlice(c.Call.Args[0].Type(), nodeType(p), 2) {
+						flatCall = c
+					}
 				}
 			}
 		}
 	}
+	nestedOK := false
 	if flatCall == nil {
-		// a refactor may inline the flattening: accept nested append loops instead (checked below through E1b/c)
-		r.Unknown("E1", "ExtractLicenses|flatten", p.pos(ext.Pos()), "kind=undecided: no call that flattens the expansion was found")
+		// the flattening written in place: for _, alt := range expansion { for _, n := range alt { out = append(out, text(n)) } }
+		for _, al := range findAppendLoops(ext) {
+			ld, ok := al.Coll.(*ssa.UnOp)
+			if !ok || ld.Op != token.MUL {
+				continue
+			}
+			ia, ok := ld.X.(*ssa.IndexAddr)
+			if !ok || isRangeIndexOf(ia.Index, ia.X) != nil {
+				continue
+			}
+			pv := qz.prov(ia.X, 0)
+			if !expandCollRe.MatchString(strings.Replace(pv, "param:expression", "param:testExpression", 1)) {
+				continue
+			}
+			elems, _ := appendedElems(al.App)
+			outer := rangeHeaderOf(ia.Index)
+			if outer == nil || !al.Unconditional || len(elems) != 1 || len(al.OtherState) > 0 {
+				continue
+			}
+			ev := qz.prov(elems[0], 0)
+			if !(strings.Contains(ev, "reconstructedLicenseString(elem(") || strings.Contains(ev, ").reconstructedLicenseString(")) {
+				continue
+			}
+			// the inner loop runs on every iteration of the outer one
+			uncond := true
+			for _, pr := range outer.Preds {
+				if outer.Dominates(pr) && !(al.Hdr == pr || al.Hdr.Dominates(pr)) {
+					uncond = false
+				}
+			}
+			if !uncond {
+				continue
+			}
+			nestedOK = true
+			r.OK("E1", "ExtractLicenses|flatten-arg", p.pos(al.App.Pos()), "nested full ranges over the whole expansion of the parsed argument", pv, true)
+			r.OK("E1", "flatten|concatenates all", p.pos(al.App.Pos()), "every term of every alternative is visited unconditionally", "", true)
+			r.OK("E1", "ExtractLicenses|one string per node", p.pos(ext.Pos()), "full range, unconditional", "in place", true)
+		}
+		if !nestedOK {
+			r.Unknown("E1", "ExtractLicenses|flatten", p.pos(ext.Pos()), "kind=undecided: no call that flattens the expansion was found")
+		}
 	} else {
 		pv := qz.prov(flatCall.Call.Args[0], 0)
 		if expandCollRe.MatchString(strings.Replace(pv, "param:expression", "param:testExpression", 1)) {
@@ -246,8 +290,11 @@ func rulesExtract(p *Prog, r *Report, eng *Engine) {
 			}
 		}
 		loops := findAppendLoops(mapFn)
-		ok := false
+		ok := nestedOK
 		why := "no accumulate-by-append loop over the flattened nodes found"
+		if nestedOK {
+			loops = nil
+		}
 		for _, al := range loops {
 			if mapColl != nil && al.Coll != mapColl {
 				why = "the string loop does not range over the flattened nodes"
@@ -307,7 +354,9 @@ func rulesExtract(p *Prog, r *Report, eng *Engine) {
 				ok = true
 			}
 		}
-		if ok {
+		if nestedOK {
+			// already recorded
+		} else if ok {
 			r.OK("E1", "ExtractLicenses|one string per node", p.pos(ext.Pos()), "full range, unconditional", viaHelper, true)
 		} else {
 			r.Bad("E1", "ExtractLicenses|one string per node", p.pos(ext.Pos()), why)
@@ -705,4 +754,17 @@ func isElemTextOf(v ssa.Value, coll, idx ssa.Value) bool {
 		}
 	}
 	return false
+}
+
+
+// isNodeSlice: t is a slice nested `depth` deep over *node ([]*node: 1, [][]*node: 2), named or not.
+func isNodeSlice(t types.Type, node *types.Named, depth int) bool {
+	for i := 0; i < depth; i++ {
+		sl, ok := t.Underlying().(*types.Slice)
+		if !ok {
+			return false
+		}
+		t = sl.Elem()
+	}
+	return node != nil && isNodePtr(t, node)
 }
